@@ -60,7 +60,14 @@ func Gen(prop string, r *sim.Rand, tier string) sim.Script {
 	newBlock()
 	var txnBlock []int
 	for i := 0; i < nOps; i++ {
-		switch r.Weighted([]int{8, 8, 22, 6, 12, 8, 5, 6, 12, 14, 2, 1, 3}) {
+		switch r.Weighted([]int{8, 8, 22, 6, 12, 8, 5, 6, 12, 14, 2, 1, 3, 2}) {
+		case 13:
+			if nb > 0 {
+				s.Ops = append(s.Ops, Op{K: "twin", B: r.Intn(nb)})
+				parentOf[nb] = -1
+				openBlocks = append(openBlocks, nb)
+				nb++
+			}
 		case 0:
 			newBlock()
 		case 1:
